@@ -118,6 +118,31 @@ def weighted_expect(typ, d):
     return E
 
 
+def judge_weighted_multiset(prop, typ, xs, ws, counts, kv, res, case, variant, context=''):
+    """Like judge_weighted for the multiset in which the pair (xs[i], ws[i]) occurs counts[i] times (huge counts reached
+    by repeated self-merging)."""
+    res.count('evaluations')
+    n = sum(counts)
+    if 'len' in kv and val(kv['len']) != n:
+        res.violation(prop, '%s.len:wrong' % typ, '%s: len()=%r but %d pairs were absorbed %s' % (typ, val(kv['len']), n, context), case, variant)
+        return False
+    fx = [Fraction(x) for x in xs]
+    fw = [Fraction(w) for w in ws]
+    sw = sum(c * w for c, w in zip(counts, fw))
+    if sw <= 0:
+        return False
+    # merge equal x values for the unweighted moments
+    agg = {}
+    for x, c in zip(xs, counts):
+        agg[x] = agg.get(x, 0) + c
+    vx = sorted(agg)
+    d = {'n': n, 'sw': sw, 'sw2': sum(c * w * w for c, w in zip(counts, fw)),
+         'wmean': sum(c * w * x for c, w, x in zip(counts, fw, fx)) / sw,
+         'M': max(abs(x) for x in fx), 'mo': ex.moments_weighted(vx, [agg[x] for x in vx], 2, need_abs=False), 'nzero': 0}
+    E = weighted_expect(typ, d)
+    return _judge_table(prop, typ, E, kv, res, case, variant, '(n=%d) %s' % (n, context))
+
+
 def judge_weighted(prop, typ, oracle, lo, hi, kv, res, case, variant, context=''):
     d = oracle.span(lo, hi)
     n = d['n']
